@@ -61,7 +61,9 @@ fn dispatch(op: &str, a: &[&str]) -> Option<String> {
         "oneshot" => crate::ops3::oneshot_op(a),
         "finditer" => crate::ops3::finditer_op(a),
         "rfinditer" => crate::ops3::rfinditer_op(a),
-        "finderops" => crate::ops3::finderops_op(a),
+        "finderops" => crate::ops4::finder_machine(a, false),
+        "finderrevops" => crate::ops4::finder_machine(a, true),
+        "iseqalias" => crate::ops4::iseqalias(a),
         _ => None,
     }
 }
